@@ -26,7 +26,7 @@ def notes_for(rng, td):
     measures = min(6, mx // 4 + 1)
     players = rng.choice([1, 1, 2])
     cols = rng.choice([2, 4])
-    rows = rng.choice([4, 8, 16, 48])
+    rows = rng.choice([4, 8, 16, 48, 5, 10, 7, 20, 3])          # incl. rows that do not divide 192 (off the tick grid)
     ks = rng.random() < 0.4
     parts = []
     for p in range(players):
@@ -48,6 +48,28 @@ def notes_for(rng, td):
     return "\n&\n".join(parts)
 
 
+def td_for_notes(rng, td, text):
+    """put a stop / delay on the tick that an off-tick note's beat falls into (and on the note's own beat when
+    it is tick-aligned): pauses and notes must meet for the timing rules to matter"""
+    from simfile.notes import NoteData
+    from fractions import Fraction
+    try:
+        beats = sorted({Fraction(n.beat) for n in NoteData(text)})
+    except Exception:  # noqa
+        return td
+    if not beats or rng.random() < 0.4:
+        return td
+    stops, delays = dict(td.stops), dict(td.delays)
+    for b in rng.sample(beats, min(3, len(beats))):
+        q = int(b * 48) * tc.TICK                      # floor to the tick
+        val = rng.choice(["0.5", "0.25"])
+        if rng.random() < 0.6:
+            stops.setdefault(q, val)
+        else:
+            delays.setdefault(q, val)
+    return tc.TD(td.bpms, sorted(stops.items()), sorted(delays.items()), td.warps, td.offset)
+
+
 def run(ctx):
     c11.run_model(ctx, PID, INVS, KINDS, ctx.quick, notes_for=notes_for)
     if ctx.quick:
@@ -58,7 +80,7 @@ def run(ctx):
     ctx.rule = ("one evaluation per hittable() query / time_notes call; S2C: every timing data of the bounded model; C2S: random + corpus "
                 "timing data x generated note data (routine, keysounded) x 3 options; non-trivial = timing data with a stop, delay or warp")
     ctx.assumptions += [
-        "note beats lie on the 1/768-beat grid (rows per measure dividing 3072)",
+        "note beats lie on the 1/26880-beat grid (rows per measure dividing 4*26880: 1..8, 10, 12, 14, 16, 20, ... 48, 64, 192, ...)",
         "times of timed notes: exact on the smooth sub-domain, otherwise through TLC's linear forms evaluated with rationals (1e-9 s)",
     ]
 
